@@ -81,6 +81,9 @@ type pathState struct {
 	pcStr   []string
 	nDecide int // decisions that needed the solver on this path
 	em      smtEmitter
+	dom       map[string]*byteSet
+	entangled map[string]bool
+	fastPath  int64 // decisions settled by the byte-domain fast path
 	asserts   int64
 	trackPoss bool
 	possDiff  bool
@@ -153,6 +156,7 @@ func (i *interpreter) assertTerm(c *term) {
 		return
 	}
 	ps := i.ps
+	ps.noteAssertedTop(c)
 	ps.em.sb.Reset()
 	ref := ps.em.ref(c)
 	ps.em.sb.WriteString("(assert " + ref + ")\n")
@@ -260,13 +264,47 @@ func (i *interpreter) decideRec(c *term, pick bool, pickC uint64) bool {
 		panic(pathAbort{kind: abortStopped, msg: "engine stopped"})
 	}
 	ps.nDecide++
-	// Use the cached model to settle one side for free.
 	var satT, satF satResult = -1, -1
 	var mT, mF model
-	if v, ok := i.evalUnderModel(c); ok {
-		if v == 1 {
+	// Byte-domain fast path (see domain.go).
+	if v, ok := singleSmallVar(c); ok && !i.eng.cfg.NoFastPath {
+		T, F := ps.splitDomain(v, c)
+		forced := T.empty() || F.empty()
+		if forced || !ps.entangled[v.name] {
+			if ps.model == nil && !(T.empty() && F.empty()) {
+				if res, m := i.query(termTrue); res == resSat {
+					ps.model = m
+				}
+			}
+			if ps.model != nil || (T.empty() && F.empty()) {
+				if T.empty() {
+					satT = resUnsat
+				} else if !ps.entangled[v.name] {
+					satT, mT = resSat, patchModel(ps.model, v.name, uint64(T.first()))
+				}
+				if F.empty() {
+					satF = resUnsat
+				} else if !ps.entangled[v.name] {
+					satF, mF = resSat, patchModel(ps.model, v.name, uint64(F.first()))
+				}
+				if satT >= 0 && satF >= 0 {
+					ps.fastPath++
+					if n := i.eng.cfg.CrossCheckEvery; n > 0 && ps.fastPath%int64(n) == 0 {
+						rT, _ := i.query(c)
+						rF, _ := i.query(mkNot(c))
+						if rT != satT || rF != satF {
+							panic(pathAbort{kind: abortInternal, msg: "byte-domain fast path disagrees with the solver on " + c.String()})
+						}
+					}
+				}
+			}
+		}
+	}
+	// Use the cached model to settle one side for free.
+	if v, ok := i.evalUnderModel(c); ok && (satT < 0 || satF < 0) {
+		if v == 1 && satT < 0 {
 			satT, mT = resSat, ps.model
-		} else {
+		} else if v == 0 && satF < 0 {
 			satF, mF = resSat, ps.model
 		}
 	}
@@ -411,20 +449,32 @@ func (i *interpreter) concretizeIndex(idx value, n int, what string) int {
 		return int(x)
 	}
 	w := s.t.w
-	var inRange *term
-	if kindSigned(s.k) {
-		inRange = mkAnd(mkPred(opSLe, mkConst(0, w), s.t), mkPred(opSLt, s.t, mkConst(uint64(n), w)))
-	} else {
-		inRange = mkPred(opULt, s.t, mkConst(uint64(n), w))
-	}
+	inRange := indexInRangeTerm(s, n)
 	if !i.obligation(inRange) {
 		i.throwRuntime(fmt.Sprintf("runtime error: index out of range [symbolic] with length %d", n))
 	}
+	_ = w
 	cands := make([]int64, n)
 	for j := range cands {
 		cands[j] = int64(j)
 	}
 	return int(i.concretize(idx, cands))
+}
+
+// indexInRangeTerm is the condition 0 <= idx < n for an index of idx's width.
+func indexInRangeTerm(s sym, n int) *term {
+	w := s.t.w
+	if kindSigned(s.k) {
+		upper := termTrue
+		if w >= 64 || uint64(n) <= mask(w)>>1 {
+			upper = mkPred(opSLt, s.t, mkConst(uint64(n), w))
+		}
+		return mkAnd(mkPred(opSLe, mkConst(0, w), s.t), upper)
+	}
+	if w < 64 && uint64(n) > mask(w) {
+		return termTrue
+	}
+	return mkPred(opULt, s.t, mkConst(uint64(n), w))
 }
 
 // ---------------------------------------------------------------------
@@ -625,4 +675,15 @@ func sortedKeys(m map[string]int) []string {
 	}
 	sort.Strings(ks)
 	return ks
+}
+
+// noteAssertedTop splits top-level conjunctions so that unary conjuncts
+// refine the byte domains individually.
+func (ps *pathState) noteAssertedTop(c *term) {
+	if c.op == opBAnd {
+		ps.noteAssertedTop(c.a)
+		ps.noteAssertedTop(c.b)
+		return
+	}
+	ps.noteAsserted(c)
 }
